@@ -295,6 +295,8 @@ func runC08(c *fw.Ctx) {
 	}
 	c08Synth(c)
 	lap("synthetic")
+	c08Boundary(c)
+	lap("buffer-boundary lengths")
 	var envs []*c08Env
 	for _, s := range []bool{false, true} {
 		envs = append(envs, c08Setup(c, s, maxCommits))
